@@ -8,6 +8,8 @@ import (
 	"strings"
 
 	"github.com/ChrisTrenkamp/xsel"
+	"github.com/ChrisTrenkamp/xsel/parser"
+	"github.com/ChrisTrenkamp/xsel/store"
 	"golang.org/x/net/html/charset"
 	"golang.org/x/text/encoding"
 	"golang.org/x/text/encoding/charmap"
@@ -66,7 +68,60 @@ func safeReadXml(b []byte) (c xsel.Cursor, err error) {
 	return xsel.ReadXml(rd)
 }
 
+// c09Alternating: two XML parsers pulled alternately, one event each.
+func c09Alternating(r *evid.Run, idx int, g *rng.R) {
+	var texts [2]string
+	var docs [2]*adoc.Doc
+	for k := 0; k < 2; k++ {
+		d := adoc.Generate(g, adoc.GenOpts{MinNodes: 2, MaxNodes: 30, NS: g.Intn(3), Misc: true, Lang: g.P(20), XMLSafe: true, NoAdjText: true})
+		for _, n := range d.All {
+			n.Local = strings.ReplaceAll(n.Local, "#", "h")
+		}
+		d.NormalizeNS(g)
+		d.Finish()
+		docs[k], texts[k] = d, d.ToXML(adoc.XMLOpts{})
+	}
+	ra, rb, ea, eb := buildAlternating(parser.ReadXml(strings.NewReader(texts[0])), parser.ReadXml(strings.NewReader(texts[1])))
+	r.Eval(2)
+	r.Count("alternating_parser_pairs", 1)
+	for k, t := range []struct {
+		root store.Cursor
+		err  error
+	}{{ra, ea}, {rb, eb}} {
+		if t.err != nil {
+			r.Violate("alternating/error", map[string]any{"case": idx, "what": fmt.Sprintf("document %d of two XML documents parsed alternately: %v", k, t.err), "xml": texts[k]})
+			continue
+		}
+		if class, what := checkStore(t.root, docs[k]); class != "" {
+			r.Violate("alternating/"+class, map[string]any{"case": idx, "what": fmt.Sprintf("document %d of two XML documents parsed alternately: %s", k, what), "xml": texts[k], "other_xml": texts[1-k]})
+		}
+	}
+}
+
 func c09Case(r *evid.Run, tier string, idx int, g *rng.R) {
+	if idx%40 == 13 {
+		c09Alternating(r, idx, g)
+		return
+	}
+	if idx%50 == 0 {
+		// an option hook of the embedding program defines entities for ONE call, the composable way
+		// (extend the decoder's table if there is one); later calls without the hook know none of them
+		hook := func(d *xml.Decoder) {
+			if d.Entity == nil {
+				d.Entity = map[string]string{}
+			}
+			d.Entity["nope"], d.Entity["corp"] = "defined-by-an-earlier-call", "ACME"
+		}
+		c, err := xsel.ReadXml(strings.NewReader(`<r a="&corp;">&nope;</r>`), hook)
+		r.Eval(1)
+		r.Count("calls_with_an_entity_hook", 1)
+		if err != nil || xsel.GetCursorString(c) != "defined-by-an-earlier-call" {
+			r.Violate("option-hook", map[string]any{"case": idx, "what": fmt.Sprintf("ReadXml with a decoder hook defining &nope; gives %v (%v)", c, errStr(err))})
+		}
+		if _, err := xsel.ReadXml(strings.NewReader(`<r>&nope;</r>`)); err == nil {
+			r.Violate("option-hook/leaks", map[string]any{"case": idx, "what": "ReadXml without options accepts &nope;, an entity that only an earlier call's option hook defined"})
+		}
+	}
 	o := adoc.GenOpts{MinNodes: 2, MaxNodes: 40, NS: g.Intn(3), Misc: true, Weird: g.P(20), Lang: g.P(20), Unicode: g.P(50), XMLSafe: true, NoAdjText: true}
 	d := adoc.Generate(g, o)
 	if g.P(5) {
